@@ -48,8 +48,8 @@ Local Opaque del_f.
    provided its argument text splits back into its arguments *)
 Lemma cmd_action top c :
   wf_cmd c = true ->
-  split_args (print_args (cl_args (c_lay c)) (c_args c)) = c_args c ->
-  mk_action top (cl_spell (c_lay c)) (print_args (cl_args (c_lay c)) (c_args c))
+  split_args true (print_args (cl_args (c_lay c)) (c_args c)) = c_args c ->
+  mk_action true top (cl_spell (c_lay c)) (print_args (cl_args (c_lay c)) (c_args c))
   = CAdd (denote_cmd top c).
 Proof.
   unfold wf_cmd. rewrite !andb_true_iff, !negb_true_iff.
@@ -104,18 +104,18 @@ Fixpoint compile (top : str) (U : list action) (is : list item) : list lbb :=
 Section LevelB.
 Variable top : str.
 Hypothesis Hargs : forall c, wf_cmd c = true ->
-  split_args (print_args (cl_args (c_lay c)) (c_args c)) = c_args c.
+  split_args true (print_args (cl_args (c_lay c)) (c_args c)) = c_args c.
 
 Lemma run_lines_app ks1 ks2 st :
-  run_lines top (ks1 ++ ks2) st = bind (run_lines top ks1 st) (run_lines top ks2).
+  run_lines true top (ks1 ++ ks2) st = bind (run_lines true top ks1 st) (run_lines true top ks2).
 Proof.
   revert st. induction ks1 as [|k r IH]; intros st; [reflexivity|].
-  cbn [app run_lines]. destruct (step top k st); cbn [bind]; auto.
+  cbn [app run_lines]. destruct (step true top k st); cbn [bind]; auto.
 Qed.
 
 Lemma run_cmds body lg blk ifb ch out :
   forallb wf_cmd body = true ->
-  run_lines top (map cmd_kind_line body) (mkR lg blk ifb ch out)
+  run_lines true top (map cmd_kind_line body) (mkR lg blk ifb ch out)
   = Ok (mkR lg (blk ++ denote_body top body) ifb ch out).
 Proof.
   revert blk. induction body as [|c r IH]; intros blk Hwf.
@@ -168,7 +168,7 @@ Lemma run_elifs elifs b ch out :
   is_nil (b_body b) = false ->
   forallb wf_branch elifs = true ->
   forallb (fun b => negb (is_nil (b_body b))) elifs = true ->
-  run_lines top (elif_kinds elifs)
+  run_lines true top (elif_kinds elifs)
     (mkR (print_cond (b_cond b)) (denote_body top (b_body b)) [] ch out)
   = Ok (mkR (print_cond (b_cond (fst (elif_state b ch elifs))))
             (denote_body top (b_body (fst (elif_state b ch elifs)))) []
@@ -196,7 +196,7 @@ Proof. destruct U; cbn; [now rewrite app_nil_r|reflexivity]. Qed.
 Lemma run_chain b0 elifs els cl U O :
   wf_item (IChain b0 elifs els cl) = true ->
   no_empty_branch_item (IChain b0 elifs els cl) = true ->
-  run_lines top (item_kinds (IChain b0 elifs els cl)) (mkR s_true U [] [] O)
+  run_lines true top (item_kinds (IChain b0 elifs els cl)) (mkR s_true U [] [] O)
   = Ok (mkR s_true [] [] [] (O ++ flushU U ++ [chain_lbb top (b0 :: elifs) els])).
 Proof.
   cbn [wf_item no_empty_branch_item forallb]. rewrite !andb_true_iff.
@@ -235,7 +235,7 @@ Qed.
 (* the whole file *)
 Lemma run_items is U O :
   wf_items is = true -> no_empty_branch is = true ->
-  bind (run_lines top (items_kinds is) (mkR s_true U [] [] O)) (fun st => Ok (finish st))
+  bind (run_lines true top (items_kinds is) (mkR s_true U [] [] O)) (fun st => Ok (finish st))
   = Ok (O ++ compile top U is).
 Proof.
   revert U O. induction is as [|i r IH]; intros U O Hwf Hne.
@@ -255,7 +255,7 @@ Qed.
 
 Lemma read_blocks_items is :
   wf_items is = true -> no_empty_branch is = true ->
-  read_blocks top (items_kinds is) = Ok (compile top [] is).
+  read_blocks true top (items_kinds is) = Ok (compile top [] is).
 Proof. intros Hwf Hne. unfold read_blocks, r_init. apply (run_items is [] [] Hwf Hne). Qed.
 
 End LevelB.
